@@ -329,19 +329,27 @@ func (g *c08Gen) genProgPlain(t *hTx, mode string, registerBefore bool) string {
 type c08History struct {
 	sharedCtx bool // every transaction (mostly) runs with the database-wide shared context
 	coBatch   bool // Db.Batch calls are issued together with failing partner calls
+	rawTx     bool // most transactions are opened by the caller on the bbolt database (store_c08_w3.go)
 }
 
 func (g *c08Gen) genHistoryKind(mode string) c08History {
 	var k c08History
 	switch mode {
 	case "upd":
-		k.sharedCtx = g.r.chance(18)
+		switch x := g.r.intn(100); {
+		case x < 18:
+			k.sharedCtx = true
+		case x < 32:
+			k.rawTx = true
+		}
 	case "bat":
 		switch x := g.r.intn(100); {
 		case x < 20:
 			k.sharedCtx = true
 		case x < 60:
 			k.coBatch = true
+		case x < 70:
+			k.rawTx = true
 		}
 	}
 	return k
@@ -364,6 +372,8 @@ func (g *c08Gen) shape(t *hTx, mode string, k c08History) string {
 		spec := []string{"e", "e", "e", "w", "w", "ew", "we", "ee", "E", "W", "Ee", "eW"}[r.intn(12)]
 		t.Vetoes = append(t.Vetoes, hVeto{Store: c08CoBatch, Change: "C", Id: spec})
 		return g.genProgPlain(t, mode, true)
+	case (k.rawTx && r.chance(65)) || (!k.sharedCtx && !k.coBatch && r.chance(4)):
+		return g.shapeRaw(t, mode)
 	}
 	return g.genProg(t, mode)
 }
